@@ -26,6 +26,23 @@ def key_coq(k):
     return "(PInt %s)" % cZ(k)
 
 
+def near_boundary(rng, hi, unit):
+    """an index in [0, hi) close to a multiple of `unit` (chunk boundary) with high probability"""
+    if hi <= 0:
+        return 0
+    cands = set()
+    for m in range(0, hi // unit + 2):
+        for d in (-8, -7, -6, -2, -1, 0, 1, 2, 7):
+            x = m * unit + d
+            if 0 <= x < hi:
+                cands.add(x)
+    cands |= {0, hi - 1, hi // 2}
+    cands = sorted(c for c in cands if 0 <= c < hi)
+    if cands and rng.random() < 0.75:
+        return rng.choice(cands)
+    return rng.randrange(0, hi)
+
+
 def gen_path(rng, t, v, depth, invalid):
     """returns (keys, ok) following value v so that dynamic navigation is possible"""
     keys = []
@@ -47,7 +64,8 @@ def gen_path(rng, t, v, depth, invalid):
                     return keys
                 keys.append(i)
                 return keys
-            i = rng.randrange(0, len(v)) if rng.random() < 0.8 else rng.randrange(0, n)
+            unit = 32 // bsize(t[1]) if is_basic(t[1]) else 1
+            i = near_boundary(rng, len(v), unit) if rng.random() < 0.8 else near_boundary(rng, min(n, 5000), unit)
             keys.append(i)
             if i >= len(v):
                 return keys
@@ -81,7 +99,8 @@ def gen_path(rng, t, v, depth, invalid):
                 keys.append(rng.choice([n, -1, n + 1]))
                 return keys
             ln = len(v) if k in ("bitvec", "bitlist") else len(v) // 2
-            keys.append(rng.randrange(0, ln) if ln > 0 and rng.random() < 0.8 else rng.randrange(0, n))
+            unit = 256 if k in ("bitvec", "bitlist") else 32
+            keys.append(near_boundary(rng, ln, unit) if ln > 0 and rng.random() < 0.6 else near_boundary(rng, min(n, 5000), unit))
             return keys
         else:
             if bad:
